@@ -149,11 +149,13 @@ type CheckSpec struct {
 	SessName  string // Definition.SessionName for session-type checks
 	Output    string
 	Peer      string
+	// SvcName is the service name declared on the check (Txn.Apply wants it when the service is created in the same request)
+	SvcName string
 }
 
 func (c CheckSpec) HealthCheck(node string) *structs.HealthCheck {
 	hc := &structs.HealthCheck{Node: node, CheckID: types.CheckID(c.ID), Name: c.Name, Status: c.Status, ServiceID: c.ServiceID,
-		Type: c.Type, Output: c.Output, PeerName: c.Peer}
+		Type: c.Type, Output: c.Output, PeerName: c.Peer, ServiceName: c.SvcName}
 	if hc.Name == "" {
 		hc.Name = c.ID
 	}
